@@ -746,6 +746,11 @@ func (o *FilterOptimizer) unionRange(l, r *ScanType) *ScanType {
 	if bytes.Compare(nstart, nend) == 0 {
 		return &ScanType{MGET, [][]byte{nstart}}
 	}
+	// The two ranges do not touch and the gap lies between them: there is no
+	// single range covering both, scan everything
+	if nstart != nil && nend != nil && bytes.Compare(nstart, nend) > 0 {
+		return &ScanType{FULL, nil}
+	}
 	return &ScanType{RANGE, [][]byte{nstart, nend}}
 }
 
